@@ -16,7 +16,7 @@ from props import PROPS  # noqa: E402
 
 # operations whose expected answer is fixed by the property (the implementation side always prints the
 # answer the property demands); the Lean side evaluates the specification predicate on the implementation's value
-DIRECT_OPS = {"respell": "not-a-respelling", "secretsafe": "secret-dependent-flow"}
+DIRECT_OPS = {"respell": "not-a-respelling", "secretsafe": "secret-dependent-flow", "accepts": "bounds", "sliceeffects": "slice-effect"}
 
 
 def sh(cmd, cwd=None, env=None, timeout=None, stdin=None, stdout=None):
@@ -68,16 +68,31 @@ def dir_digest(d, exts):
     return h.hexdigest()
 
 
-def build_go_tool(name, tags=None, race=False):
-    """Build /verif/<name> into run/bin/<name>[-race]."""
+def build_go_tool(name, tags=None, race=False, suffix=""):
+    """Build /verif/<name> into run/bin/<name><suffix>."""
     src = os.path.join(ROOT, name)
-    out = os.path.join(BIN, name + ("-race" if race else ""))
+    out = os.path.join(BIN, name + suffix)
     os.makedirs(BIN, exist_ok=True)
     if not os.path.exists(os.path.join(src, "go.sum")) or name == "harness":
         shutil.copyfile(os.path.join(REPO, "go.sum"), os.path.join(src, "go.sum"))
     cmd = ["go", "build"] + (["-race"] if race else []) + (["-tags", tags] if tags else []) + ["-o", out, "."]
     rc, outp, dt = sh(cmd, cwd=src, env=GOENV, timeout=900)
     return rc, outp
+
+
+FLAVORS = {
+    "": dict(tags="verif", race=False),
+    "race": dict(tags="verif", race=True),
+    "purego": dict(tags="verif purego", race=False),
+    "purego-race": dict(tags="verif purego", race=True),
+}
+
+
+def split_suite(spec):
+    if ":" in spec:
+        fl, name = spec.split(":", 1)
+        return fl, name
+    return "", spec
 
 
 def run_gogen(log):
@@ -152,9 +167,10 @@ def lean_audit(pid, log):
     log.append("lean %s: %.1fs rc=%d" % (os.path.basename(path), dt2, rc2))
     # axioms report
     ax = {}
-    for m in re.finditer(r"'([^']+)' depends on axioms: \[(.*?)\]", outp2, flags=re.S):
+    # theorem names may themselves contain a prime (secretSafe'_md5): match up to the closing quote before " depends"
+    for m in re.finditer(r"'(\S+)' depends on axioms: \[(.*?)\]", outp2, flags=re.S):
         ax[m.group(1)] = [a.strip() for a in m.group(2).replace("\n", " ").split(",") if a.strip()]
-    for m in re.finditer(r"'([^']+)' does not depend on any axioms", outp2):
+    for m in re.finditer(r"'(\S+)' does not depend on any axioms", outp2):
         ax[m.group(1)] = []
     errs = re.findall(r"^(.*?:\d+:\d+: error: .*)$", outp2, flags=re.M)
     if rc2 != 0 and not errs:
@@ -180,15 +196,17 @@ def lean_audit(pid, log):
 
 
 def run_suite(pid, suite, tier, seed, workdir, log, replay=None):
+    flavor, suite = split_suite(suite)
+    if flavor:
+        workdir = os.path.join(workdir, flavor)   # the same suite may run in several build flavours
     os.makedirs(workdir, exist_ok=True)
     for ext in (".ops", ".go", ".lean", ".json"):
         p = os.path.join(workdir, suite + ext)
         if os.path.exists(p):
             os.remove(p)
-    race = suite.startswith("race:")
-    if race:
-        suite = suite[5:]
-    cmd = [os.path.join(BIN, "harness-race" if race else "harness"), suite, "-out", workdir, "-seed", str(seed), "-tier", tier]
+    race = FLAVORS[flavor]["race"]
+    label = (flavor + ":" if flavor else "") + suite
+    cmd = [os.path.join(BIN, "harness" + ("-" + flavor if flavor else "")), suite, "-out", workdir, "-seed", str(seed), "-tier", tier]
     if replay:
         cmd += ["-replay", replay]
     env = dict(GOENV, GOMEMLIMIT="12GiB")
@@ -199,7 +217,7 @@ def run_suite(pid, suite, tier, seed, workdir, log, replay=None):
         env["GORACE"] = "halt_on_error=0 exitcode=0 log_path=" + racelog
     rc, outp, dt = sh(cmd, env=env, timeout=7200)
     log.append("harness %s: %.1fs rc=%d" % (suite, dt, rc))
-    r = {"suite": suite, "ops": 0, "mismatches": [], "propfails": [], "stats": {}, "samples": [], "distinct": 0, "extra": {},
+    r = {"suite": label, "ops": 0, "mismatches": [], "propfails": [], "stats": {}, "samples": [], "distinct": 0, "extra": {},
          "harness_rc": rc, "harness_out": outp[-2000:]}
     if rc != 0:
         return r
@@ -217,7 +235,7 @@ def run_suite(pid, suite, tier, seed, workdir, log, replay=None):
         for b in reports[:5]:
             sites = re.findall(r"^\s+(/repo/\S+:\d+)", b, flags=re.M)
             r["propfails"].append({"kind": "data-race", "desc": "race detector: unsynchronised conflicting accesses at " + ", ".join(dict.fromkeys(sites[:4])),
-                                   "input": {"suite": "race:" + suite, "report": b.strip()[:3000]}})
+                                   "input": {"suite": label, "report": b.strip()[:3000]}})
     opsf = os.path.join(workdir, suite + ".ops")
     if meta["ops"] > 0:
         with open(opsf, "rb") as fin, open(os.path.join(workdir, suite + ".lean"), "wb") as fout:
@@ -246,6 +264,16 @@ def run_suite(pid, suite, tier, seed, workdir, log, replay=None):
                     if len(r["propfails"]) < 50:
                         r["propfails"].append({"kind": "roundtrip", "desc": "Marshal accepted the value but Unmarshal(Marshal(v)) gave " + g.strip(), "input": inp})
                     r["stats"]["propfail:roundtrip"] = r["stats"].get("propfail:roundtrip", 0) + 1
+                if word == "roundtrip" and l.strip() == "rt-merr" and g.strip() in ("rt-reject", "rt-diff"):
+                    # the implementation's Marshal accepted a value (the model says it must be rejected) and the
+                    # string it wrote does not unmarshal back: a concrete round-trip failure on the real code
+                    inp = {"suite": suite, "op": op.strip()[:2000], "class": "marshal-accepts-unreadable"}
+                    if len(r["propfails"]) < 50:
+                        r["propfails"].append({"kind": "roundtrip", "desc": "Marshal accepted the value but Unmarshal(Marshal(v)) gave " + g.strip(), "input": inp})
+                if word == "b64decs" and " nil" in g and "corrupt" in l and g != l:
+                    inp = {"suite": suite, "op": op.strip()[:2000]}
+                    if len(r["propfails"]) < 50:
+                        r["propfails"].append({"kind": "malformed-accepted", "desc": "DecodeString returned no error for a text the bit-level reference rejects as corrupt (%s)" % l.strip(), "input": inp})
                 if word == "roundtrip":
                     r["stats"]["roundtrip:" + ("in" if "dom=in" in ann else "out") + ":" + g.strip()] = r["stats"].get("roundtrip:" + ("in" if "dom=in" in ann else "out") + ":" + g.strip(), 0) + 1
                 if word == "restable" and g.strip() in ("reject", "diff") and "dom=in" in ann:
@@ -334,11 +362,8 @@ def main(argv):
         if hits:
             problems.append(("forbidden-token", "; ".join(hits)))
         audit = lean_audit(pid, log)
-        rc, outp = build_go_tool("harness", tags="verif")
-        if rc != 0:
-            problems.append(("harness-build", outp[-3000:]))
-        if any(x.startswith("race:") for x in cfg["suites"]):
-            rc, outp = build_go_tool("harness", tags="verif", race=True)
+        for fl in sorted({split_suite(x)[0] for x in cfg["suites"]}):
+            rc, outp = build_go_tool("harness", tags=FLAVORS[fl]["tags"], race=FLAVORS[fl]["race"], suffix=("-" + fl if fl else ""))
             if rc != 0:
                 problems.append(("harness-build", outp[-3000:]))
 
